@@ -51,7 +51,12 @@ fn gen(rng: &mut Rng) -> (u64, u16, u8, u16, u8) {
     let z = Z as u128;
     // boundaries: the largest F accepted by the symbols-per-block limit is K_MAX*Z*T
     let lim_k = K_MAX * z * t;
-    let F: u128 = match rng.below(12) {
+    let F: u128 = match rng.below(16) {
+        // the far end of the u64 domain (every sum / product / rounding step of the check must survive it)
+        12 => u64::MAX as u128 - rng.below(2 * (t * z) as u64 + 2) as u128,
+        13 => (1u128 << rng.range(41, 64)).saturating_sub(rng.below(3) as u128).min(u64::MAX as u128),
+        14 => (u64::MAX as u128 + 1 - t * z * rng.range(1, 4) as u128) + rng.below(3) as u128 - 1,
+        15 => rng.log_range(1 << 40, u64::MAX) as u128,
         0 => lim_k.saturating_sub(rng.below(3) as u128),
         1 => lim_k + 1 + rng.below(3) as u128,
         2 => F_MAX - rng.below(3) as u128,
